@@ -338,29 +338,50 @@ func runC19(c *core.Ctx) {
 				"the decode target is declared outside the loop and never reset: an entry that omits 'password' or 'perms' inherits them from the previous entry (a user defined without perms gains the previous user's permissions)", nil)
 		}
 		// permission map replaced before it is filled
-		var replace, fill []*ssa.MapUpdate
-		an.Instrs(fn, func(in ssa.Instruction) {
-			mu, ok := in.(*ssa.MapUpdate)
-			if !ok {
-				return
-			}
-			if an.LoadedField(mu.Map, "CredentialsStore", "perms") {
-				if _, isMk := mu.Value.(*ssa.MakeMap); isMk {
-					replace = append(replace, mu)
-				}
-			} else if l, ok := mu.Map.(*ssa.Lookup); ok && an.LoadedField(l.X, "CredentialsStore", "perms") {
-				fill = append(fill, mu)
-			}
-		})
-		ok := len(replace) > 0 && len(fill) > 0
-		for _, f := range fill {
-			dom := false
-			for _, r := range replace {
-				if an.Dominates(r, f) && an.ReachableFrom(f, r, nil) {
-					dom = true
+		// (the per-entry statements may live in Load's loop or in a helper called from that loop)
+		ok := false
+		hosts := []*ssa.Function{fn}
+		perEntry := map[*ssa.Function]bool{}
+		for _, call := range an.AllCalls(fn, false) {
+			if callee := call.Common().StaticCallee(); callee != nil && core.InModule(callee) && len(callee.Blocks) > 0 {
+				hosts = append(hosts, callee)
+				if an.ReachableFrom(call.(ssa.Instruction), call.(ssa.Instruction), nil) {
+					perEntry[callee] = true
 				}
 			}
-			ok = ok && dom
+		}
+		for _, host := range hosts {
+			var replace, fill []*ssa.MapUpdate
+			an.Instrs(host, func(in ssa.Instruction) {
+				mu, isMU := in.(*ssa.MapUpdate)
+				if !isMU {
+					return
+				}
+				if an.LoadedField(mu.Map, "CredentialsStore", "perms") {
+					if _, isMk := mu.Value.(*ssa.MakeMap); isMk {
+						replace = append(replace, mu)
+					}
+				} else if l, isL := mu.Map.(*ssa.Lookup); isL && an.LoadedField(l.X, "CredentialsStore", "perms") {
+					fill = append(fill, mu)
+				}
+			})
+			if len(fill) == 0 {
+				continue
+			}
+			okHost := len(replace) > 0
+			for _, f := range fill {
+				dom := false
+				for _, r := range replace {
+					if an.Dominates(r, f) && (perEntry[host] || an.ReachableFrom(f, r, nil)) {
+						dom = true
+					}
+				}
+				okHost = okHost && dom
+			}
+			ok = okHost
+			if !okHost {
+				break
+			}
 		}
 		c.Result(ok, "C19.b", "INIT", "Load:perms-replaced", c.P.Pos(fn.Pos()),
 			"each entry installs a fresh permission map for its user before adding permissions (last definition wins)",
